@@ -335,9 +335,17 @@ Definition gather_in (r : repo) (st : store) (t : target) : option (list (path *
   | _, _ => None
   end.
 
-(* readRuleHashFromXattrs (incrementality.go:294): every output must carry the same record *)
+(* readRuleHashFromXattrs (incrementality.go:294): every output must carry the same record.
+   The loop over the outputs is REGENERATED from the source (Gen/EngineRecord.v, read_record_loop): a missing record
+   fails; with RDifferentFails a record different from the one seen so far fails (all outputs carry the same record);
+   without it the record of the first output (RKeepFirst) or of the last one (RTakeLast) is taken and the others only
+   need to carry some record. *)
 Definition rec_at (st : store) (rel : str) : option rkey :=
   match s_outs st rel with Some e => e_rec e | None => None end.
+Definition rec_all_equal : bool :=
+  existsb (fun x => match x with EngineRecord.RDifferentFails => true | _ => false end) EngineRecord.read_record_loop.
+Definition rec_keep_first : bool :=
+  existsb (fun x => match x with EngineRecord.RKeepFirst => true | _ => false end) EngineRecord.read_record_loop.
 Fixpoint common_rec (st : store) (rels : list str) : option rkey :=
   match rels with
   | [] => None
@@ -345,7 +353,9 @@ Fixpoint common_rec (st : store) (rels : list str) : option rkey :=
       match rest with
       | [] => rec_at st x
       | _ => match rec_at st x, common_rec st rest with
-             | Some a, Some b => if rkey_eqb a b then Some a else None
+             | Some a, Some b =>
+                 if rec_all_equal then (if rkey_eqb a b then Some a else None)
+                 else if rec_keep_first then Some a else Some b
              | _, _ => None
              end
       end
